@@ -3,11 +3,14 @@ C04 model (core Lean only, executable).
 
 1. `lex` — a lexer for the PostgreSQL token classes that matter for "user text cannot change the token
    structure": standard-conforming `'…'` strings (`''` doubling, continuation across a newline),
-   `E'…'` (backslash escapes), `B'…'`/`X'…'`/`N'…'`, `"…"` quoted identifiers (`""` doubling), `$tag$ … $tag$`
+   `E'…'` (backslash escapes), `B'…'`/`X'…'`/`N'…'`, `U&'…'` and `U&"…"`, `"…"` quoted identifiers (`""` doubling), `$tag$ … $tag$`
    dollar quoting, `$1` positional parameters, `--` line comments, nested `/* */` comments, numbers,
    operators (maximal munch over the operator characters, cut by `--` and `/*`, trailing `+`/`-` rule),
    punctuation, `@name` placeholders exactly as pgx's NamedArgs rewriter recognises them, bare words.
    A NUL character ends the query text as the server sees it (the protocol string is NUL-terminated).
+   `lex` is the lexer under `standard_conforming_strings = on` (the server default since 9.1; DAWGS neither sets nor
+   checks it); `lexOff` is the same lexer under `standard_conforming_strings = off`, where a plain `'…'` constant
+   takes backslash escapes like `E'…'` — there `pgQuote` is NOT safe (Props: `pgQuote_needs_scs_on`).
    The lexer is a one-character-at-a-time transducer (`step`/`finish`), so that it is structurally
    recursive and `lex (a ++ b)` decomposes.
 2. The functions of DAWGS that move user text, transcribed from the Go code as it is:
@@ -54,6 +57,7 @@ inductive StrKind where
   | plain   -- '…' and N'…'
   | esc     -- E'…'
   | bit     -- B'…' / X'…'
+  | uni     -- U&'…' (Unicode escapes are resolved after lexing; the body is delimited like a plain string)
   deriving DecidableEq, Repr, Inhabited
 
 inductive Tok where
@@ -61,6 +65,8 @@ inductive Tok where
   | estr (v : Str)             -- E'…' constant, raw body (escapes not interpreted)
   | bstr (v : Str)             -- B'…' / X'…'
   | qident (v : Str)           -- "…" identifier, unescaped value
+  | ustr (v : Str)             -- U&'…' constant, raw body
+  | uident (v : Str)           -- U&"…" identifier, raw body
   | dollar (tag body : Str)    -- $tag$ body $tag$
   | word (v : Str)             -- bare identifier or keyword, as written (the server case-folds it)
   | num (v : Str)
@@ -89,8 +95,9 @@ inductive Mode where
   | strQ (k : StrKind) (acc : Str)           -- inside a string, one quote seen: '' or the end
   | strEsc (acc : Str)                       -- E-string, after a backslash
   | strWs (k : StrKind) (acc : Str) (nl : Bool)  -- after the closing quote, in white space
-  | qid (acc : Str)
-  | qidQ (acc : Str)
+  | qid (u : Bool) (acc : Str)               -- u = opened by U&"
+  | qidQ (u : Bool) (acc : Str)
+  | uAmp (acc : Str)                         -- the word u / U followed by one '&'
   | lineC
   | bc (d : Nat)
   | bcStar (d : Nat)
@@ -103,6 +110,9 @@ def strTok (k : StrKind) (acc : Str) : Tok :=
   | .plain => .str acc.reverse
   | .esc => .estr acc.reverse
   | .bit => .bstr acc.reverse
+  | .uni => .ustr acc.reverse
+
+def qidTok (u : Bool) (acc : Str) : Tok := if u then .uident acc.reverse else .qident acc.reverse
 
 /-- scan.l operator rule: a multi-character operator may not end in `+` or `-` unless it contains one of
 `~ ! @ # ^ & | ` ? %`; the stripped characters are re-scanned, each becoming its own operator. `acc` is
@@ -157,8 +167,9 @@ def finish : Mode → List Tok
   | .strEsc _ => [.err "unterminated quoted string"]
   | .strQ k acc => [strTok k acc]
   | .strWs k acc _ => [strTok k acc]
-  | .qid _ => [.err "unterminated quoted identifier"]
-  | .qidQ acc => [.qident acc.reverse]
+  | .qid _ _ => [.err "unterminated quoted identifier"]
+  | .qidQ u acc => [qidTok u acc]
+  | .uAmp acc => [.word acc.reverse, .op ['&']]
   | .lineC => []
   | .bc _ => [.err "unterminated /* comment"]
   | .bcStar _ => [.err "unterminated /* comment"]
@@ -169,7 +180,7 @@ def finish : Mode → List Tok
 def topStep (c : Char) : List Tok × Mode :=
   if isSpace c then ([], .top)
   else if c = '\'' then ([], .str .plain [])
-  else if c = '"' then ([], .qid [])
+  else if c = '"' then ([], .qid false [])
   else if c = '$' then ([], .dol [])
   else if c = '@' then ([], .opAt [])
   else if c = '-' then ([], .opDash [])
@@ -189,6 +200,7 @@ def stepWord (acc : Str) (c : Char) : List Tok × Mode :=
     match strPrefix acc with
     | some k => ([], .str k [])
     | none => ([.word acc.reverse], .str .plain [])
+  else if c = '&' ∧ (acc = ['u'] ∨ acc = ['U']) then ([], .uAmp acc)
   else emitThen [.word acc.reverse] c
 
 def stepOp (acc : Str) (c : Char) : List Tok × Mode :=
@@ -257,8 +269,12 @@ def stepN (m : Mode) (c : Char) : List Tok × Mode :=
   | .strQ k acc => stepStrQ k acc c
   | .strEsc acc => ([], .str .esc (c :: '\\' :: acc))
   | .strWs k acc nl => stepStrWs k acc nl c
-  | .qid acc => if c = '"' then ([], .qidQ acc) else ([], .qid (c :: acc))
-  | .qidQ acc => if c = '"' then ([], .qid ('"' :: acc)) else emitThen [.qident acc.reverse] c
+  | .qid u acc => if c = '"' then ([], .qidQ u acc) else ([], .qid u (c :: acc))
+  | .qidQ u acc => if c = '"' then ([], .qid u ('"' :: acc)) else emitThen [qidTok u acc] c
+  | .uAmp acc =>
+    if c = '\'' then ([], .str .uni [])
+    else if c = '"' then ([], .qid true [])
+    else ((.word acc.reverse :: (stepOp ['&'] c).1), (stepOp ['&'] c).2)
   | .lineC => if isNl c then ([], .top) else ([], .lineC)
   | .bc d => if c = '*' then ([], .bcStar d) else if c = '/' then ([], .bcSlash d) else ([], .bc d)
   | .bcStar d =>
@@ -292,6 +308,17 @@ def run (m : Mode) : Str → List Tok × Mode
       | (ts', m'') => (ts ++ ts', m'')
 
 def lex (s : Str) : List Tok := go .top s
+
+/-- `standard_conforming_strings = off`: every plain string constant is opened as an escape string -/
+def offMode : Mode → Mode
+  | .str .plain [] => .str .esc []
+  | m => m
+
+def goOff (m : Mode) : Str → List Tok
+  | [] => finish m
+  | c :: cs => (step m c).1 ++ goOff (offMode (step m c).2) cs
+
+def lexOff (s : Str) : List Tok := goOff .top s
 
 /-- tail-recursive version used by the compiled driver (64 KiB inputs) -/
 def goTR (m : Mode) (cs : Str) (out : Array Tok) : Array Tok :=
